@@ -135,13 +135,13 @@
       (cond
        ;;         aaaa...
        ;; ...bbbb
-       ((<= b-end a-start)
+       ((< b-end a-start)
         (if (iset-should-merge-left? a b)
             (iset-merge-left! a b)
             (iset-adjoin-node-left! a b)))
        ;; ...aaaa
        ;;         bbbb...
-       ((>= b-start a-end)
+       ((> b-start a-end)
         (if (iset-should-merge-right? a b)
             (iset-merge-right! a b)
             (iset-adjoin-node-right! a b)))
@@ -155,13 +155,14 @@
               (iset-bits-set! a (bitwise-ior a-bits b-bits))
               (iset-squash-bits! a))))
        (else
-        ;; general case: split, recurse, join sides
+        ;; general case: split into the parts of b below, inside and
+        ;; above a's range and adjoin each of them
         (let ((ls (iset-node-split b a-start a-end)))
           (if (car ls)
-              (iset-adjoin-node-left! a (car ls)))
+              (iset-adjoin-node! a (car ls)))
           (iset-adjoin-node! a (cadr ls))
           (if (car (cddr ls))
-              (iset-adjoin-node-right! a (car (cddr ls)))))))))))
+              (iset-adjoin-node! a (car (cddr ls)))))))))))
 
 (define (iset-adjoin-node-left! iset node)
   (if (iset-left iset)
